@@ -462,7 +462,7 @@ def mf_record(chk, jid, n, ta, tb):
     A = MultiformOperator.from_qubitop(mk_qop(ta), n)
     B = MultiformOperator.from_qubitop(mk_qop(tb), n)
     sa, sb = mf_snapshot(A), mf_snapshot(B)
-    job = {"id": jid, "n": n, "A": rows_json(A.integer, A.factors, n), "B": rows_json(B.integer, B.factors, n),
+    job = {"id": jid, "kind": "pair", "n": n, "A": rows_json(A.integer, A.factors, n), "B": rows_json(B.integer, B.factors, n),
            "has_prod": False, "P": [], "PT": [], "has_dc": False, "dc": False, "has_tr": False, "tr": []}
     try:
         P = A * B
@@ -591,18 +591,355 @@ def run_multiform(chk, rng):
     if jobs:
         chk.sample({"multiform": {k: jobs[len(jobs) // 2][k] for k in ("n", "A", "B", "dc", "tr")}})
 
+# ------------------------------------------------------------------------------------------------------
+#  MultiformOperator.collapse on large stacked arrays (V)
+# ------------------------------------------------------------------------------------------------------
+SPEC2INT = {0: 0, 1: 2, 2: 3, 3: 1}        # spec letter (I X Y Z) -> Tangelo integer code (0 I, 1 Z, 2 X, 3 Y)
+
+
+def collapse_inputs(chk, rng):
+    """(n, rows of A, rows of B, dtype): stacked sizes from 1 to ~300 rows, repeated words inside and across the halves,
+    non-uniform Gaussian-dyadic factors, int8 (the documented dtype of .integer) and int64."""
+    quick = chk.quick
+
+    def fac(k):
+        return complex(((k * 5) % 7) - 3, ((k * 3) % 5) - 2) / 2.0 or 0.5
+
+    cases = []
+    sizes = [(1, 0), (2, 1), (100, 27), (128, 0), (129, 0), (130, 40), (200, 56), (255, 0), (256, 0), (257, 0), (256, 44), (150, 150)]
+    if not quick:
+        sizes += [(127, 1), (128, 1), (131, 131), (180, 75), (250, 50), (64, 64), (300, 0), (140, 139), (7, 250), (256, 256)]
+    for idx, (na, nb) in enumerate(sizes):
+        for n in ((4,) if quick else (4, 5)):
+            ws = all_words(n)
+            pool = rng.sample(ws, min(len(ws), max(3, (na + nb) * 3 // 4)))       # fewer words than rows: repeats
+            if na + nb in (256, 255, 257) and nb == 0 and n == 4:
+                pool = ws                                                        # all 4^4 words
+            a_words = [pool[i % len(pool)] for i in range(na)] if na > len(pool) else rng.sample(pool, na)
+            b_words = [rng.choice(pool) for _ in range(nb)]
+            if na == 257:
+                a_words = list(ws) + [ws[5]]
+            rng.shuffle(a_words)
+            A = [(w, fac(i + 1)) for i, w in enumerate(a_words)]
+            B = [(w, fac(3 * i + 2)) for i, w in enumerate(b_words)]
+            for dt in ("int8", "int64"):
+                cases.append((n, A, B, dt))
+    return cases
+
+
+def collapse_record(chk, jid, n, A, B, dt):
+    from tangelo.toolboxes.operators.multiformoperator import MultiformOperator
+    from ring import gauss_dyadic
+    case = {"kind": "collapse", "n": n, "dtype": dt, "A": [[list(w), str(c)] for w, c in A], "B": [[list(w), str(c)] for w, c in B]}
+    rows = np.array([[SPEC2INT[l] for l in w] for w, _ in A + B], dtype=getattr(np, dt)).reshape(len(A) + len(B), n)
+    factors = np.array([c for _, c in A + B], dtype=complex)
+    r0, f0 = rows.copy(), factors.copy()
+
+    def rj(pairs):
+        return [{"w": list(w), "c": gauss_dyadic(c, M)} for w, c in pairs]
+    try:
+        u, f = MultiformOperator.collapse(rows, factors)
+    except Exception as e:     # noqa: BLE001
+        viol(chk, "MultiformOperator.collapse:raised:%s" % type(e).__name__, "collapse of %d rows (%s) raised %s: %s" % (len(rows), dt, type(e).__name__, str(e)[:120]), case)
+        return None
+    if not (np.array_equal(rows, r0) and np.array_equal(factors, f0)):
+        viol(chk, "MultiformOperator.collapse:argument-changed", "collapse modified its input arrays (%d rows, %s)" % (len(rows), dt), case)
+    job = {"id": jid, "kind": "collapse", "n": n, "A": rj(A), "B": rj(B), "P": rows_json(np.atleast_2d(u), f, n),
+           "PT": [], "has_prod": True, "has_dc": False, "dc": False, "has_tr": False, "tr": []}
+    return job, case
+
+
+def run_collapse(chk, rng):
+    jobs, cases = [], {}
+    for n, A, B, dt in collapse_inputs(chk, rng):
+        rec = collapse_record(chk, len(jobs) + 1, n, A, B, dt)
+        if rec is None:
+            continue
+        jobs.append(rec[0])
+        cases[rec[0]["id"]] = rec[1]
+    if not jobs:
+        return
+    verdicts, results = tlc.judge("C16Multiform", jobs, WD + "/collapse", {"M": M}, max_parallel=6 if chk.quick else 12, timeout=7200)
+    good = [j for j in jobs if verdicts[j["id"]] == 0 and len(j["P"]) > 1]
+    ctl = []
+    for j in good[:4]:
+        c = copy.deepcopy(j)
+        c["id"] = 10 ** 7 + len(ctl)
+        c["P"][0]["c"], c["P"][1]["c"] = c["P"][1]["c"], c["P"][0]["c"]      # two words paired with each other's factor
+        if c["P"][0]["c"] != c["P"][1]["c"]:
+            ctl.append(c)
+    if ctl:
+        vc, rc = tlc.judge("C16Multiform", ctl, WD + "/collapse_ctl", {"M": M}, max_parallel=2)
+        verdicts.update(vc)
+        results += rc
+    for r in results:
+        chk.add_tlc(r)
+    nbad = 0
+    for j in jobs:
+        v = verdicts[j["id"]]
+        chk.add_traces(1, "collapse")
+        if v & 64:
+            raise tlc.TLCError("malformed collapse record %s" % cases[j["id"]])
+        rows = len(j["A"]) + len(j["B"])
+        cls = "rows>128" if rows > 128 else "rows<=128"
+        if v & 1:
+            nbad += 1
+            viol(chk, "MultiformOperator.collapse:wrong-sum:%s:%s" % (cases[j["id"]]["dtype"], cls),
+                 "collapse of %d stacked rows (n=%d, %s) is not the sum of the two operators" % (rows, j["n"], cases[j["id"]]["dtype"]), cases[j["id"]])
+        if v & 2:
+            nbad += 1
+            viol(chk, "MultiformOperator.collapse:not-collapsed:%s:%s" % (cases[j["id"]]["dtype"], cls),
+                 "collapse of %d stacked rows returns duplicate words or zero factors" % rows, cases[j["id"]])
+    bad_ctl = [c["id"] for c in ctl if not (verdicts[c["id"]] & 1)]
+    chk.part("collapse", jobs=len(jobs), max_rows=max(len(j["A"]) + len(j["B"]) for j in jobs), nonconforming=nbad,
+             negative_controls=len(ctl), controls_rejected=len(ctl) - len(bad_ctl))
+    if not ctl and nbad == 0:
+        raise tlc.TLCError("no collapse negative controls could be built")
+    if bad_ctl:
+        raise tlc.TLCError("binding failure: corrupted collapse records accepted: %s" % bad_ctl)
+
+
+# ------------------------------------------------------------------------------------------------------
+#  MultiformOperator as a state machine (G): spec/C16MultiformMachine.tla
+# ------------------------------------------------------------------------------------------------------
+MM_CFG = """CONSTANTS M = 8
+Family = "Q"
+NQ = 2
+MaxDepth = %(depth)d
+MaxTerms = %(mt)d
+Bound = %(bound)d
+ValsM <- %(vm)s
+ValsS <- %(vs)s
+Scalars <- %(sc)s
+Targets <- %(tg)s
+Export = "%(export)s"
+INIT Init
+NEXT Next
+INVARIANT TypeOK
+INVARIANT EncodingOK
+INVARIANT EndOfBehaviour
+PROPERTY FrameOK
+%(extra)s
+"""
+MM_ACTIONS = ("IMulO", "IMulS", "IAddO", "Compress", "RemoveAny", "ArrMul", "AddCollapse", "Commute", "RoundTrip", "GetKernel")
+
+
+def mm_cfg(depth, vm="ValsMSmall", vs="ValsSSmall", sc="ScalarsOne", tg="TargetsP", export="leaf", view=False, mt=8, bound=256):
+    return MM_CFG % dict(depth=depth, vm=vm, vs=vs, sc=sc, tg=tg, export=export, extra="VIEW View" if view else "", mt=mt, bound=bound)
+
+
+def mm_build(o):
+    from tangelo.toolboxes.operators.multiformoperator import MultiformOperator
+    if not o["ex"]:
+        return None
+    return MultiformOperator.from_qubitop(mk_qop([(tuple(e["t"]), complex(e["re"], e["im"]) if e["im"] else float(e["re"])) for e in o["val"]]), NQ)
+
+
+def mm_compare(obj, want, ordered=True, n=NQ):
+    """Compares EVERY derived attribute of the real object with the exported abstract object. Returns a clause or None."""
+    if (obj is None) != (not want["ex"]):
+        return "existence"
+    if obj is None:
+        return None
+    val = {}
+    for t, c in obj.terms.items():
+        if abs(complex(c)) > 1e-12:
+            val[term_to_key("Q", t, n)] = complex(c)
+    wv = {tuple(e["t"]): complex(e["re"], e["im"]) for e in want["val"]}
+    if not same_val(val, wv):
+        return "terms-wrong"
+    arr = want["arr"]
+    byint = {tuple(e["int"]): e for e in arr}
+    if obj.n_qubits != n:
+        return "n_qubits-wrong"
+    integer = np.asarray(obj.integer)
+    if integer.ndim != 2 or integer.shape != (len(arr), n):
+        return "integer-shape-wrong"
+    rows = [tuple(int(v) for v in r) for r in integer]
+    if set(rows) != set(byint) or len(set(rows)) != len(rows):
+        return "integer-rows-wrong"
+    factors = np.asarray(obj.factors)
+    binary = np.asarray(obj.binary)
+    swp = np.asarray(obj.binary_swap)
+    if factors.shape != (len(arr),):
+        return "factors-shape-wrong"
+    if binary.shape != (len(arr), 2 * n):
+        return "binary-shape-wrong"
+    if swp.shape != (len(arr), 2 * n):
+        return "binary_swap-shape-wrong"
+    for i, r in enumerate(rows):
+        e = byint[r]
+        if abs(complex(factors[i]) - complex(e["re"], e["im"])) > TOL:
+            return "factors-wrong"
+        if [int(bool(v)) for v in binary[i]] != list(e["bin"]):
+            return "binary-wrong"
+        if [int(bool(v)) for v in swp[i]] != list(e["swp"]):
+            return "binary_swap-wrong"
+    # row order = order of the terms dictionary whenever the arrays are in sync with the terms
+    if ordered and set(wv) == set(tuple(e["w"]) for e in arr) and len(obj.terms) == len(arr):
+        byword = {tuple(e["w"]): tuple(e["int"]) for e in arr}
+        order = [byword[term_to_key("Q", t, n)] for t in obj.terms]
+        if order != rows:
+            return "row-order-differs-from-terms"
+        if obj.n_terms != len(arr):
+            return "n_terms-wrong"
+    if (obj.kernel is not None) != want["k"]:
+        return "kernel-flag-wrong"
+    return None
+
+
+def mm_replay(chk, h0, steps):
+    from tangelo.toolboxes.operators.multiformoperator import MultiformOperator, do_commute
+    heap = {nm: mm_build(h0[nm]) for nm in ("m", "s", "p")}
+    exp = {nm: h0[nm] for nm in ("m", "s", "p")}
+    ordered = {nm: True for nm in ("m", "s", "p")}       # arrays were (re)derived from the terms by the last action on the name
+    case = {"kind": "mm-history", "h0": h0, "steps": steps}
+    done = 0
+    for si, st in enumerate(steps):
+        kind = st["kind"]
+        x = heap[st["x"]]
+        y = heap[st["y"]] if st["y"] else None
+        site = {"imul": "__imul__", "imuls": "__imul__", "iadd": "__iadd__", "isub": "__isub__", "compress": "compress",
+                "remove": "remove_terms", "mul": "__mul__", "addcollapse": "collapse", "commute": "do_commute",
+                "roundtrip": "from_qubitop", "kernel": "get_kernel"}[kind]
+        detail0 = "step %d of %d: %s(x=%s%s)%s after %s" % (si + 1, len(steps), kind, st["x"], (", y=" + st["y"]) if st["y"] else "",
+                                                         " flag=%s" % st["flag"] if kind in ("compress", "commute", "remove") else "",
+                                                         [s["kind"] for s in steps[:si]])
+        res = None
+        try:
+            if kind == "imul":
+                x *= y
+                heap[st["x"]] = x
+            elif kind == "imuls":
+                x *= scalar(st["s"])
+                heap[st["x"]] = x
+            elif kind == "iadd":
+                x += y
+                heap[st["x"]] = x
+            elif kind == "isub":
+                x -= y
+                heap[st["x"]] = x
+            elif kind == "compress":
+                if st["flag"]:
+                    x.compress()
+                else:
+                    x.compress(n_qubits=NQ)
+            elif kind == "remove":
+                rows = [tuple(int(v) for v in r) for r in np.asarray(x.integer)]
+                idx = [rows.index(tuple(r)) for r in st["rows"]]
+                x.remove_terms(idx[0] if st["flag"] else idx)
+            elif kind == "mul":
+                heap[st["r"]] = x * y
+            elif kind == "addcollapse":
+                u, f = MultiformOperator.collapse(np.concatenate((x.integer, y.integer)), np.concatenate((x.factors, y.factors)))
+                heap[st["r"]] = MultiformOperator.from_integerop(u, f)
+            elif kind == "commute":
+                res = do_commute(x, y, term_resolved=bool(st["flag"]))
+            elif kind == "roundtrip":
+                new = MultiformOperator.from_qubitop(x.qubitoperator, NQ)
+                new.compress(n_qubits=NQ)
+                heap[st["r"]] = new
+            elif kind == "kernel":
+                res = x.get_kernel()
+        except Exception as e:     # noqa: BLE001
+            viol(chk, "MultiformOperator.%s:raised:%s" % (site, type(e).__name__), "%s raised %s: %s" % (detail0, type(e).__name__, str(e)[:150]), case)
+            return done
+        if kind != "commute":
+            exp[st["r"]] = st["upd"]
+            if kind in ("imul", "imuls", "iadd", "isub"):
+                ordered[st["r"]] = False
+            elif kind != "kernel":
+                ordered[st["r"]] = True
+        # ---- results --------------------------------------------------------------------------------
+        if kind == "commute":
+            e = st["exp"]
+            if st["flag"]:
+                rows = [tuple(int(v) for v in r) for r in np.asarray(x.integer)]
+                want = {tuple(t["int"]): t["c"] for t in e["trw"]}
+                got = [bool(v) for v in np.asarray(res).ravel()]
+                if len(got) != len(rows) or any(r not in want or want[r] != g for r, g in zip(rows, got)):
+                    viol(chk, "do_commute[term_resolved]:wrong:history", "%s: returned %s for rows %s, spec says %s" % (detail0, got, rows, want), case)
+                    return done
+            else:
+                got = bool(res)
+                if got and not e["zero"]:
+                    viol(chk, "do_commute:true-but-noncommuting:history", "%s: True although [x, y] != 0" % detail0, case)
+                    return done
+                if not got and e["tw"]:
+                    viol(chk, "do_commute:false-but-termwise-commuting:history", "%s: False although every pair of words commutes" % detail0, case)
+                    return done
+                if not got and e["zero"]:
+                    viol(chk, "do_commute:false-but-commuting", "%s: False, the operators commute by cancellation between terms" % detail0, case)
+        if kind == "kernel":
+            allowed = set(tuple(r) for r in st["exp"]["comm"])
+            k = np.asarray(res)
+            bad = k.ndim != 2 or k.shape[1] != 2 * NQ or any(tuple(int(bool(v)) for v in r) not in allowed for r in k)
+            if bad:
+                viol(chk, "MultiformOperator.get_kernel:row-does-not-commute", "%s: kernel %s is not inside the commutant %s" % (detail0, k.tolist(), sorted(allowed)), case)
+                return done
+        # ---- every attribute of every object ------------------------------------------------------------
+        for nm in ("m", "s", "p"):
+            clause = mm_compare(heap[nm], exp[nm], ordered[nm])
+            if clause:
+                role = "target" if (nm == st["r"] and kind != "commute") else "bystander"
+                viol(chk, "MultiformOperator.%s:%s:%s" % (site, clause, role),
+                     "%s: object %s (%s): %s" % (detail0, nm, role, clause), case)
+                return done
+        done += 1
+    return done
+
+
+def run_machine(chk):
+    quick = chk.quick
+    runs = [dict(tag="mm_d2", cfg=mm_cfg(2, "ValsMAll", "ValsSAll", tg="TargetsP" if quick else "TargetsAll"), workers=4),
+            dict(tag="mm_sim", cfg=mm_cfg(8, "ValsMAll", "ValsSAll", sc="ScalarsAll", tg="TargetsAll", mt=12, bound=4096), workers=1,
+                 simulate="num=%d" % (80 if quick else 1500), depth=9, seed=chk.seed + 11)]
+    if not quick:
+        runs.append(dict(tag="mm_d3_view", cfg=mm_cfg(3, "ValsMSmall", "ValsSSmall", export="all", view=True), workers=6))
+    jobs = [dict(module="C16MultiformMachine", cfg=r["cfg"], name=WD + "/" + r["tag"], workers=r["workers"], simulate=r.get("simulate"),
+                 depth=r.get("depth"), seed=r.get("seed"), timeout=7200, heap="6g") for r in runs]
+    jobs.append(dict(module="C16MultiformMachine", cfg=mm_cfg(2, export="none"), name=WD + "/mm_cov", coverage=True))
+    results = tlc.run_many(jobs, max_parallel=4)
+    cov = results[-1]
+    if not cov.ok:
+        raise tlc.TLCError("C16MultiformMachine (coverage run) failed: %s" % cov.out[-1500:])
+    cc = cov.coverage_counts()
+    acts = {a: cc.get(a, (0, 0))[1] for a in MM_ACTIONS}
+    chk.part("coverage_mm", **acts)
+    if any(v == 0 for v in acts.values()):
+        raise tlc.TLCError("vacuity: an action of C16MultiformMachine was never taken: %s" % acts)
+    for r, res in zip(runs, results):
+        if not res.ok:
+            raise tlc.TLCError("C16MultiformMachine: the specification itself failed (%s): %s" % (res.violated, res.out[-1500:]))
+        chk.add_tlc(res, r["tag"])
+        hs = res.prints("MH")
+        if not hs:
+            raise tlc.TLCError("no histories exported by %s" % r["tag"])
+        n = 0
+        for h in hs:
+            n += mm_replay(chk, h["h0"], h["steps"])
+        chk.add_traces(len(hs), r["tag"])
+        chk.part(r["tag"], histories=len(hs), steps_compared=n)
+        res.out = ""
+    if hs:
+        chk.sample({"multiform-history": [{k: s[k] for k in ("kind", "x", "y", "r", "flag")} for s in hs[len(hs) // 2]["steps"]]})
+
 
 def run(chk):
     rng = random.Random(chk.seed)
     if os.environ.get("VERIF_NO_KNOWN"):          # development aid for mutation experiments on a tree with the proposed fixes applied
         chk.known = []
-    parts = os.environ.get("C16_PARTS", "laws,heap,multiform").split(",")     # development aid
+    parts = os.environ.get("C16_PARTS", "laws,heap,multiform,collapse,machine").split(",")     # development aid
     if "laws" in parts:
         run_laws(chk)
     if "heap" in parts:
         run_heap(chk)
     if "multiform" in parts:
         run_multiform(chk, rng)
+    if "collapse" in parts:
+        run_collapse(chk, rng)
+    if "machine" in parts:
+        run_machine(chk)
     chk.cov["rule"] = ("S: ring laws + product-is-operator-product on the enumerated value domain. G: BFS of all histories "
                        "(length 1 over all class/annotation pairs, length 2 on shared operands, length 3 via distinct heaps in "
                        "thorough) and -simulate chains of length 10 of C16OperatorHeap replayed on the real classes, all names "
@@ -627,6 +964,21 @@ def replay(chk, rec):
             print("  ", v[0], "|", v[1][:300])
         print("history of %d steps: %d steps conformed" % (len(case["steps"]), n))
         return not c2.violations
+    if case["kind"] == "mm-history":
+        n = mm_replay(c2, case["h0"], case["steps"])
+        for v in c2.violations:
+            print("  ", v[0], "|", v[1][:400])
+        print("MultiformOperator history of %d steps: %d steps conformed" % (len(case["steps"]), n))
+        return not c2.violations
+    if case["kind"] == "collapse":
+        A = [(tuple(w), complex(c)) for w, c in case["A"]]
+        B = [(tuple(w), complex(c)) for w, c in case["B"]]
+        r = collapse_record(c2, 1, case["n"], A, B, case["dtype"])
+        if r is None:
+            return False
+        verdicts, _ = tlc.judge("C16Multiform", [r[0]], WD + "/replay", {"M": M})
+        print("collapse of %d + %d rows (%s): %d rows returned, TLC verdict bits %s" % (len(A), len(B), case["dtype"], len(r[0]["P"]), verdicts[1]))
+        return verdicts[1] == 0 and not c2.violations
     if case["kind"] == "multiform":
         ta = [(tuple(w), complex(c)) for w, c in case["A"]]
         tb = [(tuple(w), complex(c)) for w, c in case["B"]]
